@@ -622,13 +622,14 @@ def obligations():
 def run(report):
     from ..contracts import refimpl as _refimpl
     try:
-        _run(report)
+        execs, obs, ndispatch = obligations()
     except (GenError, NotImplementedError, KeyError, AttributeError, TypeError) as e:
         _refimpl.generation_fallback(report, "collect_expression", UNIT, f"{type(e).__name__}: {e}", seed(), 4000)
+        return
+    _run(report, execs, obs, ndispatch)
 
 
-def _run(report):
-    execs, obs, ndispatch = obligations()
+def _run(report, execs, obs, ndispatch):
     report.extend(obs)
     src = PKG / "core/dimensions/collect_expression.py"
     for f in ("_split_numeric_and_symbolic", "_collect_mul", "_collect_pow", "_collect_unique_dimension", "_collect_add", "_collect_abs", "_collect_min_max",
@@ -670,27 +671,32 @@ def diagram_bounded(report):
     leaves = [x, t, m, k, sp.Integer(2), sp.Rational(1, 2), Quantity(3 * U.meter), Quantity(2 * U.second)]
     count, fails = 0, []
     trees = list(R.trees(leaves, 2, rng, 1500 if report.tier == "thorough" else 400))
+
+    def one(tr):
+        """None = not applicable / agrees; str = disagreement"""
+        _, d = collect_expression_and_dimension(tr)
+        sub = {s_: Quantity(sp.Rational(rng.randint(1, 9), rng.randint(1, 4)) * dimension_to_si_unit(s_.dimension)) for s_ in tr.free_symbols if hasattr(s_, "dimension")}
+        q = Quantity(tr.subs(sub))
+        if R.is_any_value(q.scale_factor):
+            return None
+        dv = {kk: sp.sympify(vv).subs({s_: v_.scale_factor for s_, v_ in sub.items()}) for kk, vv in R.dim_vec(d).items()}
+        if not R.dims_equiv(R.dim_vec(q.dimension), dv):
+            return f"{tr}: inferred {R.dim_vec(d)}, quantity {R.dim_vec(q.dimension)}"
+        return ""
+
     for tr in trees:
         if not isinstance(tr, sp.Expr) or tr.has(sp.Min, sp.Max, sp.sin, sp.exp):
             continue
-        try:
-            _, d = collect_expression_and_dimension(tr)
-        except Exception:
-            continue
         for _ in range(2):
-            sub = {s_: Quantity(sp.Rational(rng.randint(1, 9), rng.randint(1, 4)) * dimension_to_si_unit(s_.dimension)) for s_ in tr.free_symbols if hasattr(s_, "dimension")}
             try:
-                q = Quantity(tr.subs(sub))
-            except Exception as exn:
-                # refused by C05: only acceptable if the value is singular (division by zero etc.)
+                r = one(tr)
+            except Exception:
+                break  # inference or construction refuses this tree / substitution: the clause does not apply
+            if r is None:
                 continue
             count += 1
-            if R.is_any_value(q.scale_factor):
-                continue
-            dv = {kk: sp.sympify(vv).subs({s_: v_.scale_factor for s_, v_ in sub.items()}) for kk, vv in R.dim_vec(d).items()}
-            if not R.dims_equiv(R.dim_vec(q.dimension), dv):
-                fails.append({"name": f"{UNIT}/bounded/diagram", "detail": f"{tr}: inferred {R.dim_vec(d)}, quantity {R.dim_vec(q.dimension)}", "signature": str(tr),
-                              "replay": {"reproduced": True, "script": None}})
+            if r:
+                fails.append({"name": f"{UNIT}/bounded/diagram", "detail": r, "signature": str(tr), "replay": {"reproduced": True, "script": None}})
                 break
     report.add_bounded("commuting diagram: inferred dimension == dimension of the quantity obtained by substituting non-zero quantities of the declared dimensions",
                        f"{len(trees)} enumerated trees x 2 seeded substitutions", count, not fails, fails[:5])
